@@ -127,7 +127,7 @@ fn run_engine(rt: &tokio::runtime::Runtime, qs: &[Query], ids: &[u32], evs: &[us
     Ok(fmt_reports(&mut inc, &mut Vec::new()))
 }
 
-fn scenario(ctx: &mut Ctx, rt: &tokio::runtime::Runtime, qs: &[Query], evs: &[usize], with_engine: bool) {
+fn scenario(ctx: &mut Ctx, rt: &tokio::runtime::Runtime, qs: &[Query], evs: &[usize], with_engine: bool, fixed_gap: Option<i64>) {
     ctx.directive(&format!("new {} | {}", fmt_queries(qs), fmt_events(evs)));
     let all_ids: Vec<u32> = (0..qs.len() as u32).collect();
     let call = |f: &dyn Fn() -> String| -> String {
@@ -165,7 +165,7 @@ fn scenario(ctx: &mut Ctx, rt: &tokio::runtime::Runtime, qs: &[Query], evs: &[us
     }
     if with_engine && qs.len() == 1 && !evs.is_empty() {
         // the same stream with the events spread over more than the 60 s window
-        let gap = if ctx.rng.chance(1, 2) { 20 } else { 100 };
+        let gap = fixed_gap.unwrap_or_else(|| if ctx.rng.chance(1, 2) { 20 } else { 100 });
         match run_engine(rt, qs, &all_ids, evs, gap) {
             Ok(r) => ctx.case(&format!("enginegap alone0 {}", gap), &r),
             Err(e) => { eprintln!("generator error: {}", e); std::process::exit(3); }
@@ -216,10 +216,18 @@ pub fn run(ctx: &mut Ctx, _name: &str) {
         vec![q(&[(0, false), (1, true), (2, false)]), q(&[(0, false), (1, true)])],         // A -> B+ -> C ; A -> B+
         vec![q(&[(0, true), (1, true)]), q(&[(1, true), (2, false)]), q(&[(0, false), (1, true), (2, true)])],
     ];
-    // 1. witnesses of the known findings, replayed on every run
-    scenario(ctx, &rt, &fixed[0], &[0, 1, 1], true);
-    scenario(ctx, &rt, &fixed[0], &[0, 0, 1, 1], true);
-    scenario(ctx, &rt, &fixed[2], &[0, 2, 1, 1], true);
+    // 1. witnesses of the known findings (checks/C25.json, Props/C25.lean), replayed on every run
+    let a_bk = q(&[(0, false), (1, true)]);   // A -> B+
+    let ak_b = q(&[(0, true), (1, false)]);   // A+ -> B
+    scenario(ctx, &rt, &[a_bk.clone()], &[0, 1], true, Some(100));       // hamlet-count (3 vs 1), window-ignored
+    scenario(ctx, &rt, &[ak_b.clone()], &[0], true, Some(20));           // hamlet-count, minimal (2 vs 0)
+    scenario(ctx, &rt, &[ak_b.clone()], &[0, 1], true, Some(20));        // engine-count (n=2 vs 1)
+    scenario(ctx, &rt, &[a_bk.clone()], &[0, 1, 1], true, Some(20));     // greta-accumulates (4 vs 3), engine-count (stale 1 vs 3)
+    scenario(ctx, &rt, &[ak_b.clone()], &[0, 1, 0], true, Some(20));     // greta-accumulates (2 vs 1)
+    scenario(ctx, &rt, &[a_bk.clone(), q(&[(0, true), (1, true)])], &[1], true, None);            // hamlet-sharing, sharing on
+    scenario(ctx, &rt, &[ak_b.clone(), q(&[(0, true), (2, false)])], &[0, 2, 0], true, None);     // hamlet-sharing, sharing off
+    scenario(ctx, &rt, &[ak_b.clone(), a_bk.clone()], &[0, 1, 1], true, None);                    // greta-shared-edges
+    scenario(ctx, &rt, &[a_bk.clone(), q(&[(2, false), (1, true)])], &[0, 1], true, None);        // engine-sharing
     // 2. exhaustive short streams
     let (max_len, sets) = if ctx.thorough { (6usize, fixed.len()) } else { (4usize, 3) };
     for set in fixed.iter().take(sets) {
@@ -228,7 +236,7 @@ pub fn run(ctx: &mut Ctx, _name: &str) {
             for code in 0..total {
                 let mut c = code;
                 let evs: Vec<usize> = (0..len).map(|_| { let t = c % 3; c /= 3; t }).collect();
-                scenario(ctx, &rt, set, &evs, ctx.thorough || len <= 3);
+                scenario(ctx, &rt, set, &evs, ctx.thorough || len <= 3, None);
             }
         }
     }
@@ -248,6 +256,6 @@ pub fn run(ctx: &mut Ctx, _name: &str) {
         }
         let ntypes = if ctx.rng.chance(1, 5) { 4 } else { 3 };
         let evs = bursty(ctx, 12, ntypes);
-        scenario(ctx, &rt, &qs, &evs, true);
+        scenario(ctx, &rt, &qs, &evs, true, None);
     }
 }
